@@ -228,8 +228,9 @@ func runC05E2E(t *testing.T, rng *rand.Rand, rec *sim.Rec, tier string, caseNo i
 	// where every ChannelData message must be padded to a multiple of four on the wire
 	overTCP := caseNo%2 == 1
 	var cl *turn.Client
+	var ctrl *simnet.Conn
 	if overTCP {
-		ctrl, err := w.Net.DialTCP(net.IPv4(10, 1, 1, 1).To4(), 0, w.ServerTCP[0].TCPAddr())
+		ctrl, err = w.Net.DialTCP(net.IPv4(10, 1, 1, 1).To4(), 0, w.ServerTCP[0].TCPAddr())
 		if err != nil {
 			t.Fatal(err)
 		}
@@ -356,6 +357,44 @@ func runC05E2E(t *testing.T, rng *rand.Rand, rec *sim.Rec, tier string, caseNo i
 	time.Sleep(2 * time.Second) // the binding is confirmed by now
 	burst("channel")
 	indications("with-channel-bound")
+	if ctrl != nil && (caseNo/8)%2 == 0 {
+		// the client's host stops reading its control connection for a few seconds while the peer
+		// keeps sending (the server's writes meet TCP flow control: 4 KiB in flight at most); when it
+		// resumes, whatever is delivered is one of the datagrams sent, whole and correctly attributed
+		ctrl.Peer().SetCapacity(4096)
+		ctrl.PauseReads(true)
+		sent := map[string]bool{}
+		for i := 0; i < 120; i++ {
+			a := make([]byte, pick(rng, []int{200, 700, 1200}))
+			rng.Read(a)
+			a[0], a[1] = byte(i>>8), byte(i)
+			sent[string(a)] = true
+			_, _ = peer.UDP.WriteTo(a, relay)
+			time.Sleep(40 * time.Millisecond)
+		}
+		ctrl.PauseReads(false)
+		time.Sleep(3 * time.Second)
+		buf := make([]byte, 2000)
+		delivered := 0
+		for {
+			_ = conn.SetReadDeadline(time.Now().Add(500 * time.Millisecond))
+			k, from, err := conn.ReadFrom(buf)
+			if err != nil {
+				break
+			}
+			if !sent[string(buf[:k])] || from.String() != peer.Addr.String() {
+				rec.Violate("e2e-altered", "stalled-stream-client", "after the client had not read its TCP control connection for 5 s, ReadFrom returned %d bytes %x from %s: no datagram the peer sent looks like that", k, head(buf[:k]), from)
+
+				return
+			}
+			delivered++
+		}
+		ctrl.Peer().SetCapacity(0)
+		rec.EvN("e2e-after-stall-delivered", delivered)
+		rec.FP("e2e/stalled-stream-client/delivered>0=%v", delivered > 0)
+		// the stream is still in step: the next burst goes through untouched
+		peer.UDP.Drain()
+	}
 	time.Sleep(pick(rng, []time.Duration{time.Second, 6 * time.Minute}))
 	burst("channel-later")
 	rec.SetSample(map[string]any{"kind": "real-client-bursts"})
